@@ -58,6 +58,15 @@ func gitRefnameOK(s string) bool {
 	return comps >= 2
 }
 
+func c13HasAtComponent(s string) bool {
+	for _, p := range strings.Split(s, "/") {
+		if p == "@" {
+			return true
+		}
+	}
+	return false
+}
+
 // c13BatchEligible reports whether real git can be asked about name through a packed-refs file: git refuses to read
 // the whole file ("packed refname is dangerous") when a name is not under refs/ or has an empty, "." or ".."
 // component, and a line cannot hold LF or NUL.
@@ -338,6 +347,12 @@ func runC13(c *fw.Ctx) {
 		if got != want {
 			fails := func(s string) bool {
 				if s == "HEAD" || s == "" {
+					return false
+				}
+				// the minimiser must stay inside the class of the original mismatch: replacing a byte by '@' can
+				// turn any rejected name into an instance of the listed "@ component" defect and the new mismatch
+				// would then be reported under that known key
+				if c13HasAtComponent(s) != c13HasAtComponent(name) {
 					return false
 				}
 				w := gitRefnameOK(s)
